@@ -23,6 +23,7 @@ from pyvc.core import Contract, contract
 from pyvc.den import ArrayModel, Reduction
 from pyvc.ptlib import (VerifAxisTag, VerifTag, check_index_lambda,
                         mk_placeholder, shape_term)
+from pyvc.ptlib import dim
 from pyvc.sym import EngineSignal, py_floordiv, py_mod, z_of
 
 LOWER = "pytato.transform.lower_to_index_lambda"
@@ -130,12 +131,12 @@ M = M_from(MODEL)
 def same_shape_operands(h, k, rank, *, except_axis=None):
     """k placeholders a0..a{k-1} with equal symbolic shapes (the constructor's
     precondition); along *except_axis* lengths are independent."""
-    common = [h.nonneg(f"n{d}") for d in range(rank)]
+    common = [dim(h, f"n{d}") for d in range(rank)]
     ops = []
     for j in range(k):
         shp = list(common)
         if except_axis is not None:
-            shp[except_axis] = h.nonneg(f"a{j}_len")
+            shp[except_axis] = dim(h, f"a{j}_len")
         ops.append(mk_placeholder(h, f"a{j}", shape=shp))
     return ops
 
@@ -965,7 +966,7 @@ class LowerEinsum(Contract):
         from pytato.reductions import SumReductionOperation
         ins, o, unit = inst["ins"], inst["out"], {tuple(u) for u in inst["unit"]}
         letters = sorted(set("".join(ins)))
-        n = {ch: h.nonneg(f"n_{ch}") for ch in letters}
+        n = {ch: dim(h, f"n_{ch}") for ch in letters}
         ops = []
         for k, sp in enumerate(ins):
             shp = [1 if (k, ax) in unit else n[ch] for ax, ch in enumerate(sp)]
